@@ -220,7 +220,7 @@ func init() {
 			return out
 		},
 		Components: map[string]string{
-			"omniwitness.Main, LogConfig/AsLogMap, Feeder.UnmarshalYAML/FeedFunc, internal/config.NewLog": "real",
+			"omniwitness.Main, LogConfig/AsLogMap, Feeder.UnmarshalYAML/FeedFunc, internal/config.NewLog":         "real",
 			"all five feeders' start-up paths (sumdb, serverless, rekor, pixel, tiles), internal/distribute/rest": "real, against a hostile network",
 			"omniwitness/logs.yaml":      "as embedded by go:embed in this build of the working tree",
 			"omniwitness/logs_test.yaml": "read from the working tree",
